@@ -156,6 +156,8 @@ func init() {
 				Bound: "EVERY finite double x (one FP64 solver variable) through the three routes: must yield float64 equal to x"},
 			{Pkg: "bkl", Func: "HarnessC04_compare", Tiers: "qt", Covers: []string{"compare.checked"},
 				Bound: "all 9 format pairs for one symbolic integer: match(), useless-override detection in merge() and the $repeat count check (n in [0,2]) agree"},
+			{Pkg: "bkl", Func: "HarnessC04_structure", Tiers: "qt", Covers: []string{"structure.checked"},
+				Bound: "one document with numbers at the top level, inside a list, inside a map inside a list and inside an array of tables, delivered as JSON (json.Number), TOML (int64/float64, []map[string]any) and YAML (node tree): all 9 format pairs canonicalise to the same tree with Go int / float64 leaves, for every two int64 and every finite double"},
 			{Pkg: "bkl", Func: "HarnessC04_mergekeys", Tiers: "qt", Covers: []string{"mergekey.single", "mergekey.list"},
 				Bound: "YAML mapping nodes with << (alias to a map / list of two aliases), keys {a,b,c}, local keys before or after the merge key: equals the expanded mapping"},
 		},
